@@ -84,13 +84,21 @@ def run_case(runner, space, case):
     if case.get("pre"):
         # a symlink already present at the final component of an output file
         kind = case["pre"]
-        tgt = {"inside": b"inside-target", "outside": b"../outside/keep.txt", "dangling": b"../outside/created-by-link", "dirs": b"inside-target"}[kind]
+        tgt = {"inside": b"inside-target", "outside": b"../outside/keep.txt", "dangling": b"../outside/created-by-link", "dirs": b"inside-target", "readonly-dir": b"../outside/keep.txt"}[kind]
         pre = [("inside-target", "f", b"inside", 0o644, 1000000000), ("f", "l", tgt, None, None), ("d", "d", None, 0o755, None), ("d/f", "l", tgt if kind != "inside" else b"../inside-target", None, None),
                ("w", "l", tgt, None, None), ("abcd", "l", tgt, None, None), ("s", "l", tgt, None, None)]
+    outside = OUTSIDE
+    uid = 0
+    if case.get("pre") == "readonly-dir":
+        # the link sits in a directory the (unprivileged) tool cannot modify, so it cannot be removed first; its target outside
+        # is writable by everybody: whatever the tool does instead of replacing the link, it may not write through it
+        pre = [("d", "d", None, 0o555, None), ("d/f", "l", b"../../outside/keep.txt", None, None), ("f", "l", b"../outside/keep.txt", None, None)]
+        outside = [("keep.txt", "f", b"canary", 0o666, 1000000000)] + [o for o in OUTSIDE if o[0] != "keep.txt"]
+        uid = cli.NOBODY
     if case.get("pre") == "dirs":
         # directories of the archive's names already exist in the working directory (w= must not touch them)
         pre = [("d", "d", None, 0o750, 900000000), ("q", "d", None, 0o750, 900000000), ("p", "d", None, 0o750, 900000000)]
-    r = runner.run(build, args, stdin=b"y\n" * 12, pre=pre, outside=OUTSIDE)
+    r = runner.run(build, args, stdin=b"y\n" * 12, pre=pre, outside=outside, uid=uid)
     root, ABS = holder["root"], holder["abs"]
     readonly = cmd[0] in "lvtp" or "n" in cmd[1:].split("w=")[0]
     viol = []
@@ -140,6 +148,8 @@ def run_case(runner, space, case):
             t = r.tree.get(k)
             if "w=" in cmd and (t is None or t[0] != "d" or t[1] != 0o750 or t[2] != 900000000):
                 viol.append(("c10-object-outside-w-dir-changed", "%r next to the w= directory was changed: %r" % (k, t)))
+    elif case.get("pre") == "readonly-dir":
+        pass
     elif case.get("pre") and not readonly:
         # the pre-existing link must have been replaced, not followed
         if case["pre"] == "inside":
